@@ -45,7 +45,8 @@ def consts(ids, maxkeys=2, depth=0, maxlevel=0, maxfaults=99, devs=None):
     devs = devs or {}
     return {'Ids': ids, 'MaxKeys': maxkeys, 'Depth': depth, 'MaxLevel': maxlevel, 'MaxFaults': maxfaults,
             'DevScope': B(devs.get('DevScope')), 'DevCacheLoc': B(devs.get('DevCacheLoc')),
-            'DevDelKey': B(devs.get('DevDelKey'))}
+            'DevDelKey': B(devs.get('DevDelKey')), 'DevKeyId': B(devs.get('DevKeyId')),
+            'DevDelCertView': B(devs.get('DevDelCertView')), 'DevCertObj': B(devs.get('DevCertObj'))}
 
 
 def op(name, i='none', k=NOKEY, c=NOCERT, t='none', by='none', loc='none'):
